@@ -593,3 +593,52 @@ def rule_labelled_equality(ctx: Ctx) -> None:
                  "_equal_graphs builds the two adjacency matrices without a common nodelist: each graph is laid out in its own insertion order, while "
                  "local_comp_graph returns its graphs in sorted node order — an input whose nodes were not added in sorted order is never recognised "
                  "again and is listed twice", func="_equal_graphs", construct="_equal_graphs: no common node order")
+
+
+def rule_member_search(ctx: Ctx) -> None:
+    """distinct.member-search: check_isomorphism(graph, g_list) answers "is some member of g_list equal / isomorphic to graph": an
+    existential search over the *whole* list.  Accepted shapes: a flag set (or `return True`) under `if check(graph, g)` inside the loop over
+    g_list with False after it, or `any(check(graph, g) for g in g_list)`; a cheap pre-filter may be and-ed to the test or guard it with
+    `continue`.  A `return check(graph, g)` inside the loop lets the first (filtered) member decide for all later ones, so a duplicate of a
+    later member is admitted as new."""
+    repo = ctx.repo
+    m = repo.module(RELABEL)
+    fn = repo.anchor(RELABEL, "check_isomorphism")
+    ctx.touch(m, fn)
+    ps = func_params(fn)
+    G, L = ps[0], ps[1]
+    checks = {"check"} | {norm(a.targets[0]) for a in ast.walk(fn) if isinstance(a, ast.Assign) and isinstance(a.value, ast.IfExp)}
+    loops = [l for l in ast.walk(fn) if isinstance(l, ast.For) and any(isinstance(x, ast.Name) and x.id == L for x in ast.walk(l.iter))]
+
+    def is_check(e, v):
+        return isinstance(e, ast.Call) and (norm(e.func) in checks or norm(e.func) in ("_equal_graphs", "nx.is_isomorphic")) and \
+            sorted(norm(a) for a in e.args[:2]) == sorted([G, v])
+    anyform = [c for c in ast.walk(fn) if isinstance(c, ast.Call) and call_name(c) == "any" and c.args and isinstance(c.args[0], (ast.GeneratorExp, ast.ListComp))
+               and any(isinstance(x, ast.Name) and x.id == L for x in ast.walk(c.args[0].generators[0].iter))]
+    if anyform and not loops:
+        ctx.ok("distinct.member-search", m, anyform[0], what="any(check(graph, g) for g in g_list)")
+        return
+    if len(loops) != 1 or not isinstance(loops[0].target, ast.Name):
+        raise AnalysisError("check_isomorphism: the search loop over the list was not found")
+    l = loops[0]
+    v = l.target.id
+    early = [r for r in ast.walk(l) if isinstance(r, ast.Return) and r.value is not None and any(is_check(x, v) for x in ast.walk(r.value))]
+    if early:
+        ctx.fail("distinct.member-search", m, early[0],
+                 f"check_isomorphism returns `{short(early[0].value)}` from inside the loop over `{L}`: the first member that reaches this statement decides, "
+                 f"later members are never compared, so lc_orbit_finder admits a graph equal / isomorphic to a later entry of its orbit list as new",
+                 func="check_isomorphism", construct="check_isomorphism: first candidate decides")
+        return
+    hits = [i for i in ast.walk(l) if isinstance(i, ast.If) and any(is_check(x, v) for x in ast.walk(i.test))]
+    good = False
+    for i in hits:
+        neg = any(isinstance(u, ast.UnaryOp) and isinstance(u.op, ast.Not) and any(is_check(x, v) for x in ast.walk(u)) for u in ast.walk(i.test))
+        if neg or isinstance(i.test, ast.BoolOp) and isinstance(i.test.op, ast.Or):
+            continue
+        sets_true = any((isinstance(st, ast.Return) and isinstance(st.value, ast.Constant) and st.value.value is True) or
+                        (isinstance(st, ast.Assign) and isinstance(st.value, ast.Constant) and st.value.value is True) for st in i.body)
+        good = good or sets_true
+    if good:
+        ctx.ok("distinct.member-search", m, l, what="every member of the list is compared until one matches")
+    else:
+        raise AnalysisError("check_isomorphism: the shape of the membership search was not recognised")
